@@ -222,6 +222,11 @@ static void muggle_quick_sort_recursive(void **ptr, size_t left, size_t right, m
 
 bool muggle_quick_sort(void **ptr, size_t count, muggle_dsaa_data_cmp cmp)
 {
+	if (count == 0)
+	{
+		return true;
+	}
+
 	muggle_quick_sort_recursive(ptr, 0, count - 1, cmp);
 
 	return true;
